@@ -55,7 +55,26 @@ def map_rules(fx, rep, prop_rule_prefix=''):
             good = bool(returns)
             bad = None
             for pth, ret in returns:
-                if not isinstance(ret, stage.Staged) or ret.leaves != want:
+                # a path that established u_i = u_j (an equal-inputs fast path) is judged with the two inputs identified
+                import tt
+                same = {}
+                for lab, taken in pth.labels:
+                    x, neg = tt.strip_not(lab)
+                    if isinstance(x, tuple) and x and x[0] == 'inputs-equal' and ((taken != 0) != neg):
+                        same[x[2]] = same.get(x[1], x[1])
+
+                def merged(leaves):
+                    out = {}
+                    for k, (c_, w_) in leaves.items():
+                        k2 = ('sswu', same.get(k[1], k[1])) if (isinstance(k, tuple) and len(k) == 2 and k[0] == 'sswu') else k
+                        if k2 in out and out[k2][1] == w_:
+                            out[k2] = (out[k2][0] + c_, w_)
+                        elif k2 in out:
+                            out[(k2, 'conflict', w_)] = (c_, w_)
+                        else:
+                            out[k2] = (c_, w_)
+                    return out
+                if not isinstance(ret, stage.Staged) or merged(ret.leaves) != merged(want):
                     good = False
                     bad = ret
             rep.check(good, 'WIRE', '%s:composition' % label,
